@@ -221,7 +221,12 @@ impl<T> Pool<T> {
         });
         let obj = {
             let mut queue = inner.queue.lock().unwrap();
-            queue.pop().unwrap()
+            queue.pop()
+        };
+        // The queue can only be empty if the pool was closed (and cleared)
+        // after the permit had been acquired.
+        let Some(obj) = obj else {
+            return Err(PoolError::Closed);
         };
         #[cfg(deadpool_verif)]
         verif::point("unmanaged.get.pre_forget");
@@ -272,7 +277,12 @@ impl<T> Pool<T> {
         });
         let obj = {
             let mut queue = inner.queue.lock().unwrap();
-            queue.pop().unwrap()
+            queue.pop()
+        };
+        // The queue can only be empty if the pool was closed (and cleared)
+        // after the permit had been acquired.
+        let Some(obj) = obj else {
+            return Err(PoolError::Closed);
         };
         #[cfg(deadpool_verif)]
         verif::point("unmanaged.get.pre_forget");
